@@ -62,7 +62,10 @@ func c13Files(s1, s2 string, errs int) map[string]string {
 	b := "{namespace b}\n/** @param? p */\n{template .x}\n[{$p ?: 'np'}]{call c.y/}\n{/template}\n" +
 		// header params and no soydoc: the registry rewrites this template's tree when it is added
 		"{template .hdr}\n{@param? h: ?}\n<{$h ?: 'nh'}>\n{/template}\n"
-	cc := "{namespace c}\n/**\n * @param? q\n * @param? a\n */\n{template .y}\n({$q ?: 'nq'}{$a ?: ''})\n{/template}\n"
+	cc := "{namespace c}\n/**\n * @param? q\n * @param? a\n */\n{template .y}\n({$q ?: 'nq'}{$a ?: ''})\n{/template}\n" +
+		// compiles and renders, but has no JavaScript form (range() as a value): generation of this file
+		// fails, in the middle of the sequence of emissions, always with the same error
+		"/** */\n{template .nojs}\n{length(range(2))}\n{/template}\n"
 	if errs&1 != 0 {
 		b += "/** */\n{template .bad}\n{if}\n{/template}\n" // syntax error in b
 	}
@@ -361,6 +364,72 @@ func c13ErrorTexts(c *Ctx) {
 			}
 		}
 		c.Observe("errbundle:"+n, first)
+		c.Nontrivial()
+	}
+	// several files with independent syntax errors, fixed insertion order: the error reported does
+	// not depend on scheduling either (every interleaving of whatever goroutines the compiler
+	// starts, within 1 deviation (thorough: 2), together with the map orders).
+	good := "{namespace g%d}\n/** */\n{template .t}\nok\n{/template}\n"
+	bads := []string{"{namespace b0}\n/** */\n{template .t}\n{if}\n{/template}\n", "{namespace b1}\n/** */\n{template .t}\n{$x +}\n{/template}\n",
+		"{namespace b2}\n/** */\n{template .t}\n{foreach $x}\n{/template}\n" + strings.Repeat("// padding\n", 40), "{namespace b3}\n/** */\n{template .t}\n{call}\n{/template}\n"}
+	for mask := 1; mask < 16; mask++ {
+		if !c.Mine() {
+			continue
+		}
+		var files []string
+		for i := 0; i < 4; i++ {
+			if mask&(1<<i) != 0 {
+				files = append(files, bads[i])
+			} else {
+				files = append(files, fmt.Sprintf(good, i))
+			}
+		}
+		cs := c13case{Files: map[string]string{}}
+		for i, f := range files {
+			cs.Files[fmt.Sprintf("s%d.soy", i)] = f
+		}
+		run := func() string {
+			b := soy.NewBundle()
+			for i, f := range files {
+				b = b.AddTemplateString(fmt.Sprintf("s%d.soy", i), f)
+			}
+			_, err := b.Compile()
+			if err == nil {
+				return "accepted"
+			}
+			return err.Error()
+		}
+		var first string
+		check := func(v vrt.Verdict, prefix []int, got string) {
+			cs.MapOrder = prefix
+			switch {
+			case v.Panic != nil || v.Exhausted || v.Deadlock:
+				c.Violate("compiles", "panic", "panic:syntax-error bundle", cs, "returns", fmt.Sprint(v.Panic, v.Exhausted, v.Deadlock))
+			case first == "":
+				first = got
+			case got != first:
+				c.Violate("the same sources in the same order always yield the same result (every schedule)", "mismatch", "schedule-dependent-error", cs, first, got+fmt.Sprintf(" under choices %v", prefix))
+			}
+		}
+		if c.Instr() {
+			var got string
+			sb, scap := 1, int64(20000)
+			if c.Thorough() {
+				sb, scap = 2, 400000
+			}
+			st := explore(vrt.Options{Fuel: 20000000, MapChoice: true}, sb, scap, func() { got = run() }, func(v vrt.Verdict, prefix []int) { check(v, prefix, got) })
+			c.Count("schedules_explored", st.Execs)
+			if st.Capped {
+				c.Cap(fmt.Sprintf("schedule exploration of the syntax-error bundle %04b capped at %d executions", mask, scap))
+			}
+		} else {
+			for rep := 0; rep < 100; rep++ {
+				var got string
+				v := vrt.Run(vrt.Options{}, func() { got = run() })
+				check(v, nil, got)
+			}
+		}
+		c.Observe(fmt.Sprintf("syntax-errors:%04b", mask), first)
 		c.Nontrivial()
 	}
 }
